@@ -126,6 +126,13 @@ def generate(rng, tier):
             qs = all_queries(s)
             for runs in layouts(s):
                 yield {"runs": runs, "queries": qs}
+    # long runs: a combining character exactly at index 64, 128, 256 of a run, requested ranges ending at that column
+    for L in (63, 64, 127, 128, 255, 256):
+        t = "x" * (L - 1) + "e" + COMB + "yz" + WIDE
+        qs = [["width"], ["at", L], ["at", L + 1], ["slice", 0, L], ["slice", 0, L + 1], ["slice", 1, L], ["slice", L - 1, L],
+              ["slice", L - 1, L + 2], ["slice", 0, L - 1], ["slice", L, L + 3]]
+        yield {"runs": [[t, ATTS3[1]]], "queries": qs}
+        yield {"runs": [["ab", ATTS3[0]], [t, ATTS3[1]], [COMB + "q", ATTS3[2]]], "queries": [[q[0]] + [v + 2 for v in q[1:]] for q in qs]}
     # characters without a width (wcwidth -1): runs of one, of two, alone and next to ordinary runs
     for c in "\n\t\x7f\x1b":
         for runs in ([[c, ATTS3[0]]], [[c + c, ATTS3[1]]], [["a", ATTS3[0]], [c, ATTS3[1]]], [[c, ATTS3[0]], [WIDE, ATTS3[2]]],
